@@ -200,7 +200,9 @@ Record lang_cfg := {
   lc_prefer_system : bool;
   lc_std : deps -> list str;                       (* Language.get_includes(dep_types), already punctuated *)
   lc_ns_stem : str;
-  lc_default_idt : str                             (* default id_type of filter_id (imports, namespaces) *)
+  lc_default_idt : str;                            (* default id_type of filter_id (imports, namespaces) *)
+  lc_tmpl_inc : bool -> list str;                  (* literal #include lines of base.j2, by the omit flag *)
+  lc_has_ns_files : bool                           (* has_standard_namespace_files: namespace files are generated *)
 }.
 
 Definition punct (l : lang_cfg) (p : str) : str := if lc_prefer_system l then angle p else quote p.
@@ -220,7 +222,8 @@ Definition include_list (l : lang_cfg) (q_union omit : bool) (t : tdef) : list s
   let d := direct q_union t in
   map (fun c => punct l (inc_path l c)) (d_comp d)
   ++ (if omit then [] else map (punct l) (support_includes l))
-  ++ lc_std l d.
+  ++ lc_std l d
+  ++ lc_tmpl_inc l omit.
 
 Definition outputs (l : lang_cfg) (ts : list tdef) : list str := map (fun t => out_path l (td_id t)) ts.
 
@@ -264,7 +267,9 @@ Definition prefixes (l : list str) : list (list str) := prefixes_from [] l.
 Definition all_namespaces (ts : list tdef) : list (list str) :=
   dedup_ns (flat_map (fun t => prefixes (ti_ns (td_id t))) ts) [].
 Definition ns_outputs (l : lang_cfg) (ts : list tdef) : list str :=
-  map (fun ns => posix (ns_file (lc_sid l) (lc_dir_idt l) (lc_ns_stem l) (lc_ext l) ns)) (all_namespaces ts).
+  if lc_has_ns_files l
+  then map (fun ns => posix (ns_file (lc_sid l) (lc_dir_idt l) (lc_ns_stem l) (lc_ext l) ns)) (all_namespaces ts)
+  else [].
 
 (* the file `import a.b.c` needs: <a>/<b>/<c>/__init__.py where each directory is named by the DIRECTORY stropping *)
 Definition import_target (l : lang_cfg) (ns : list str) : str :=
@@ -368,76 +373,83 @@ Fixpoint balanced (stack : list str) (l : list tok) : bool :=
   end.
 
 (* ---------------------------------------------------------------------------------- *)
-(* which standard header declares which name (C11 7.x / C++ [headers]); hand table      *)
+(* std_includes_cover (C): all tables are parameters here; ClosureInst.v plugs in the    *)
+(* regenerated ones (names + guards scanned from the templates, header -> names asked of *)
+(* the installed gcc).  Hand-written: only the FEATURE guards of the filter-emitted names *)
 (* ---------------------------------------------------------------------------------- *)
-Definition S_ (l : list N) : str := l.
-Definition n_size_t := S_ [115;105;122;101;95;116].
-Definition n_NULL := S_ [78;85;76;76].
-Definition n_uint8_t := S_ [117;105;110;116;56;95;116].
-Definition n_uint16_t := S_ [117;105;110;116;49;54;95;116].
-Definition n_true := S_ [116;114;117;101].
-Definition n_false := S_ [102;97;108;115;101].
-Definition n_bool := S_ [98;111;111;108].
-Definition n_memset := S_ [109;101;109;115;101;116].
-Definition n_memmove := S_ [109;101;109;109;111;118;101].
-Definition n_static_assert := S_ [115;116;97;116;105;99;95;97;115;115;101;114;116].
-Definition n_assert := S_ [97;115;115;101;114;116].
-Definition n_isfinite := S_ [105;115;102;105;110;105;116;101].
-Definition h_stdlib := S_ [60;115;116;100;108;105;98;46;104;62].
-Definition h_stdint := S_ [60;115;116;100;105;110;116;46;104;62].
-Definition h_stdbool := S_ [60;115;116;100;98;111;111;108;46;104;62].
-Definition h_string := S_ [60;115;116;114;105;110;103;46;104;62].
-Definition h_assert := S_ [60;97;115;115;101;114;116;46;104;62].
-Definition h_math := S_ [60;109;97;116;104;46;104;62].
-Definition h_stddef := S_ [60;115;116;100;100;101;102;46;104;62].
+Definition n_NULL : str := [78;85;76;76].
+Definition n_bool : str := [98;111;111;108].
+Definition n_true : str := [116;114;117;101].
+Definition n_false : str := [102;97;108;115;101].
+Definition n_size_t : str := [115;105;122;101;95;116].
+Definition n_uint8_t : str := [117;105;110;116;56;95;116].
+Definition n_isfinite : str := [105;115;102;105;110;105;116;101].
+Definition n_memset : str := [109;101;109;115;101;116].
 
-Definition c_declares : list (str * list str) :=
-  [(h_stdlib, [n_size_t; n_NULL]); (h_stddef, [n_size_t; n_NULL]);
-   (h_stdint, [n_uint8_t; n_uint16_t]);
-   (h_stdbool, [n_bool; n_true; n_false]);
-   (h_string, [n_memset; n_memmove; n_size_t; n_NULL]);
-   (h_assert, [n_static_assert; n_assert]);
-   (h_math, [n_isfinite])].
-
-Definition declared_by (hs : list str) (name : str) : bool :=
-  existsb (fun p => str_in (fst p) hs && str_in name (snd p)) c_declares.
-
-(* features of a type that decide which names its generated C header uses (hand analysis of lang/c/templates) *)
+(* features of a type that decide which names its generated C header uses *)
 Record feat := { f_int : bool; f_float : bool; f_vla : bool; f_arr : bool; f_boolarr : bool; f_bool : bool; f_primarr : bool; f_union : bool;
                  f_pod : bool;           (* --omit-serialization-support *)
-                 f_empty : bool;         (* some section has no field: `uint8_t _dummy_` *)
+                 f_empty : bool;         (* some section has no non-padding field: `uint8_t _dummy_` *)
                  f_boolvla : bool;       (* bool[<=n]: bit-packed uint8_t storage *)
-                 f_any_union : bool      (* a union section anywhere: the is_*_ helpers return bool *) }.
+                 f_any_union : bool;     (* a union section anywhere: tag field, is_*_ helpers returning bool *)
+                 f_omit_float : bool     (* --omit-float-serialization-support *) }.
 
 Definition feat_flags (e : feat) (f : flag) : bool :=
   match f with FInt => f_int e | FFloat => f_float e | FVla => f_vla e | FArr => f_arr e | FBoolArr => f_boolarr e
              | FBool => f_bool e | FPrimArr => f_primarr e | FUnion => f_union e end.
 
-(* name -> condition under which the generated C header uses it *)
-Definition c_needs : list (str * (feat -> bool)) :=
-  [(n_size_t, fun _ => true);
-   (n_uint8_t, fun e => f_int e || f_empty e || f_boolarr e || f_boolvla e);
-   (n_uint16_t, fun e => f_int e);
-   (n_true, fun e => f_bool e || f_any_union e);
-   (n_false, fun e => f_bool e || f_any_union e);
-   (n_memset, fun e => f_primarr e);
-   (n_memmove, fun e => negb (f_pod e));
-   (n_static_assert, fun _ => true);
-   (n_assert, fun e => negb (f_pod e));
-   (n_isfinite, fun e => negb (f_pod e) && f_float e)].
+(* the feature record of a type definition: the flags ARE DependencyBuilder.direct's *)
+Fixpoint has_boolvla (x : dt) : bool := match x with DVar DBool => true | DFix e | DVar e => has_boolvla e | _ => false end.
+Definition feat_of (q pod omit_float empty_section : bool) (t : tdef) : feat :=
+  let d := direct q t in
+  {| f_int := d_int d; f_float := d_float d; f_vla := d_vla d; f_arr := d_arr d; f_boolarr := d_boolarr d; f_bool := d_bool d;
+     f_primarr := d_primarr d; f_union := d_union d; f_pod := pod; f_empty := empty_section;
+     f_boolvla := existsb has_boolvla (td_attrs t); f_any_union := td_isunion t || td_hidden_union t; f_omit_float := omit_float |}.
 
-Definition need_of (name : str) : option (feat -> bool) :=
-  match find (fun p => str_eqb (fst p) name) c_needs with Some p => Some (snd p) | None => None end.
+(* hand analysis, FEATURE part only: when do the type definitions (definitions.j2 through the filters) emit a filter-emitted name;
+   a filter-emitted name without an entry counts as always used *)
+Definition filter_guard (name : str) (e : feat) : bool :=
+  if str_eqb name n_bool then f_bool e || f_any_union e
+  else if str_eqb name n_uint8_t then f_int e || f_empty e || f_boolarr e || f_boolvla e || f_any_union e
+  else if str_eqb name n_size_t || str_eqb name n_NULL || str_eqb name n_true || str_eqb name n_false then true
+  else (* the remaining fixed-width integer names *) f_int e || f_any_union e.
 
-(* the headers a generated C header pulls in: get_includes(flags) plus, with serialization support, what the support header includes *)
-Definition c_headers (tbl : list (cond * str)) (support_incs : list str) (std_types : bool) (e : feat) : list str :=
-  table_includes tbl (feat_flags e) std_types false ++ (if f_pod e then [] else h_assert :: support_incs).
+(* feature refinement of template-literal names: isfinite only serialises floats, memset only clears primitive arrays *)
+Definition tmpl_refine (name : str) (e : feat) : bool :=
+  if str_eqb name n_isfinite then f_float e else true.
 
-Definition c_covered (tbl : list (cond * str)) (support_incs tmpl_names : list str) (std_types : bool) (e : feat) : bool :=
-  forallb (fun name => match need_of name with
-                       | Some used => negb (used e) || declared_by (c_headers tbl support_incs std_types e) name
-                       | None => false                 (* a name the analysis does not know: fail closed *)
-                       end) tmpl_names.
+Definition lit_active (pod : bool) (g : lit_guard) : bool :=
+  match g with LAlways => true | LOmitOnly => pod | LSerOnly => negb pod end.
+Definition lit_includes (tbl : list (lit_guard * str)) (pod : bool) : list str :=
+  map snd (filter (fun p => lit_active pod (fst p)) tbl).
 
-(* the excluded trigger of the partial statement (known finding F-C06-C-POD) *)
-Definition c_pod_trigger (e : feat) : bool := f_pod e.
+Section Cover.
+  Variable get_includes : list (cond * str).          (* regenerated: Language.get_includes *)
+  Variable support_incs : list (bool * str).           (* regenerated: #include lines of the support header, true = only with float support *)
+  Variable tmpl_incs : list (lit_guard * str).          (* regenerated: literal #include lines of base.j2 *)
+  Variable tmpl_names : list (str * bool).              (* regenerated: std names in the templates, true = only under `not omit` *)
+  Variable filter_names : list str.                     (* regenerated: names the filters emit *)
+  Variable declares : list (str * list str).            (* regenerated: header -> needed names it makes visible (gcc -std=c11) *)
+  Variable std_types : bool.
+
+  (* every header a generated C type header pulls in *)
+  Definition c_headers (e : feat) : list str :=
+    table_includes get_includes (feat_flags e) std_types false
+    ++ lit_includes tmpl_incs (f_pod e)
+    ++ (if f_pod e then [] else map snd (filter (fun p => negb (fst p) || negb (f_omit_float e)) support_incs)).
+
+  Definition declared_by (hs : list str) (name : str) : bool :=
+    existsb (fun p => str_in (fst p) hs && str_in name (snd p)) declares.
+
+  Definition used (name : str) (e : feat) : bool :=
+    existsb (fun p => str_eqb (fst p) name && (negb (snd p) || negb (f_pod e)) && tmpl_refine name e) tmpl_names
+    || (str_in name filter_names && filter_guard name e).
+
+  Definition all_names : list str := map fst tmpl_names ++ filter_names.
+
+  Definition c_covered (e : feat) : bool :=
+    forallb (fun name => negb (used name e) || declared_by (c_headers e) name) all_names.
+End Cover.
+
+(* excluded: --omit-float-serialization-support with a float field (the option removes the float primitives; documented) *)
+Definition c_float_trigger (e : feat) : bool := f_omit_float e && f_float e.
